@@ -121,3 +121,15 @@ Definition ser_outcome (tasks : list tdef) (o : outcome) : list N :=
 
 Definition case_hash (fuel : nat) (tasks : list tdef) (c : run_cfg) : N :=
   pack (ser_outcome tasks (cond_run fuel tasks c)).
+
+(* whole-project validation (TaskIndex.validate_all_loaded_tasks): [keys] = the loaded tasks in dict order *)
+Definition ser_vresult (r : vresult) : list N :=
+  match r with
+  | VOk roots => 0 :: ser_list ser_nat roots
+  | VCycle => [1]
+  | VNotFound x => [2; N.of_nat x]
+  | VOutOfFuel => [3]
+  end.
+
+Definition validate_hash (fuel : nat) (tasks : list tdef) (keys : list nat) : N :=
+  pack (ser_vresult (validate_all (graph_of tasks) fuel keys)).
